@@ -533,6 +533,9 @@ func (sig *Signature[Sig, SigFE, PK, PKFE, E, S]) UnmarshalCBOR(data []byte) err
 	if err != nil {
 		return errs.Wrap(err).WithMessage("could not unmarshal signature from CBOR")
 	}
+	if dto == nil {
+		return signatures.ErrInvalidArgument.WithMessage("Signature DTO is nil")
+	}
 	sig2, err := NewSignature(dto.V, dto.Pop)
 	if err != nil {
 		return errs.Wrap(err).WithMessage("could not create signature from deserialized data")
@@ -678,6 +681,9 @@ func (pop *ProofOfPossession[Sig, SigFE, PK, PKFE, E, S]) UnmarshalCBOR(data []b
 	dto, err := serde.UnmarshalCBOR[*proofOfPossessionDTO[Sig, SigFE, PK, PKFE, E, S]](data)
 	if err != nil {
 		return errs.Wrap(err).WithMessage("could not unmarshal proof of possession from CBOR")
+	}
+	if dto == nil {
+		return signatures.ErrInvalidArgument.WithMessage("ProofOfPossession DTO is nil")
 	}
 	pop2, err := NewProofOfPossession(dto.V)
 	if err != nil {
